@@ -607,6 +607,16 @@ def grid_cells(family, ck, seed, scale):
                 lab, t = H.hostile_template([], get=True)
                 def f(E, kind=kind, t=t): E.c('C_GetAttributeValue', s=E.S, o=E.k(kind), tmpl=t)
                 add('tmpl=' + lab, 'C_GetAttributeValue ' + kind, f)
+        # nested templates read back into inner buffers of every small size, in every slot (the three-step protocol with honest pointers and stated sizes, but sizes the library did not suggest)
+        for arr in ('CKA_WRAP_TEMPLATE', 'CKA_UNWRAP_TEMPLATE'):
+            for sizes in ([1, 1, 1, 1], [4, 4, 4, 4], [7, 7, 7, 7], [8, 0, 8, 8], [8, 1, 3, 64], [2, 8, 64, 5], [64, 64, 64, 64], [8, 1, 64, 8, 8, 8]):
+                def f(E, arr=arr, sizes=sizes):
+                    inner = [('CKA_CLASS', E.ck.CKO_SECRET_KEY), ('CKA_EXTRACTABLE', True), ('CKA_LABEL', b'inner-label-0123456789'), ('CKA_KEY_TYPE', E.ck.CKK_AES), ('CKA_VALUE_LEN', 16)]
+                    r = E.c('C_CreateObject', s=E.S, tmpl=E.T(list(K.template('aes128', label='with-nested')) + [(arr, inner)]))
+                    if r['rv'] != 0: return
+                    E.c('C_GetAttributeValue', s=E.S, o=r['h'], tmpl=[{'t': E.ck[arr], 'tmpl': [{'t': 0, 'buf': b} for b in sizes]}])
+                    E.c('C_GetAttributeValue', s=E.S, o=r['h'], tmpl=[{'t': E.ck[arr], 'tmpl': [{'t': 0, 'buf': b} for b in sizes[:2]]}]); E.c('X_GetTemplateAttr', s=E.S, o=r['h'], t=E.ck[arr])
+                add('buf=size', f'{arr} read into inner buffers of sizes {sizes}', f)
         for n in LEN_GRID + [1 << 20]:
             def f(E, n=n):
                 E.c('C_SetOperationState', s=E.S, data=H.blob(n), k1=0, k2=0); E.c('C_SetOperationState', s=E.S, data='00' * n, k1=E.k('aes128'), k2=E.k('rsa1024:priv'))
